@@ -227,7 +227,7 @@ func (s *sched) step(p *proc) {
 func (s *sched) deadlocked() bool { return len(s.enabled()) == 0 && !s.allDone() }
 
 var rescuedByPatience int // times a "nobody can move" situation dissolved during the grace period (a transient mutex wait)
-var confirmedStuck int // executions of this process in which "nobody can move" survived the grace period
+var confirmedStuck int    // executions of this process in which "nobody can move" survived the grace period
 
 func wallNanos() int64 { // real time, also inside a synctest bubble (time.Now is virtual there)
 	var tv syscall.Timeval
